@@ -23,7 +23,7 @@ import (
 
 type bpCase struct {
 	M      [2]int `json:"requests_per_sender"`
-	Kind   [2]int `json:"kind"` // 0 custom messages, 1 entity adds, 2 alternating
+	Kind   [2]int `json:"kind"`   // 0 custom messages, 1 entity adds, 2 alternating
 	Resume int    `json:"resume"` // 0: slow reader resumes when the senders are held up or done; 1: after 10 ms of fake time
 	Late   bool   `json:"observer_joins_late"`
 }
@@ -220,6 +220,135 @@ func backpressureTest(t *testing.T, prop string) {
 			col.Violations++
 			saveCase(prop, c)
 			rt.Fatalf("%s violated: %s (case %+v)", prop, v, c)
+		}
+	})
+}
+
+// C06 under back-pressure: a member that owns many non-persistent (and some
+// persistent) entities leaves while another member has stopped reading; more
+// than 512 delete relays queue up for the slow reader. After it has caught up
+// every remaining member must have been told exactly once about each removed
+// entity and once about the departure, and about no persistent entity.
+type leaveBpCase struct {
+	Entities   int  `json:"entities"`
+	Persistent int  `json:"persistent"`
+	Abort      bool `json:"abort"`
+}
+
+func runLeaveBackpressure(t *testing.T, c leaveBpCase) (viol string, queued int) {
+	defer func() {
+		if r := recover(); r != nil && viol == "" {
+			viol = fmt.Sprintf("goroutines stay blocked forever: %v", r)
+		}
+	}()
+	synctest.Test(t, func(t *testing.T) {
+		w := NewWWorld(Config{Modules: []string{}, FrameMs: 15, Conns: 3}, WOpts{})
+		defer w.Shutdown()
+		ts := func() *timestamppb.Timestamp { return &timestamppb.Timestamp{Seconds: 1700000000} }
+		const L, R, O = 0, 1, 2
+		var sid string
+		var lpid uint32
+		for _, slot := range []int{L, R, O} {
+			w.Connect(slot)
+			w.Send(slot, &hagallpb.ParticipantJoinRequest{Type: TJoinReq, Timestamp: ts(), RequestId: 1, SessionId: sid})
+			for _, rx := range w.Inbox(slot) {
+				if jr, ok := rx.M.(*hagallpb.ParticipantJoinResponse); ok {
+					sid = jr.SessionId
+					if slot == L {
+						lpid = jr.ParticipantId
+					}
+				}
+			}
+		}
+		removed, kept := map[uint32]bool{}, map[uint32]bool{}
+		for i := 0; i < c.Entities+c.Persistent; i++ {
+			n := len(w.Inbox(L))
+			persist := i < c.Persistent
+			w.Send(L, &hagallpb.EntityAddRequest{Type: TEntityAddReq, Timestamp: ts(), RequestId: uint32(10 + i), Persist: persist})
+			for _, rx := range w.Inbox(L)[n:] {
+				if r, ok := rx.M.(*hagallpb.EntityAddResponse); ok {
+					if persist {
+						kept[r.EntityId] = true
+					} else {
+						removed[r.EntityId] = true
+					}
+				}
+			}
+		}
+		w.Stall(R)
+		if c.Abort {
+			w.Abort(L)
+		} else {
+			w.Close(L)
+		}
+		w.Unstall(R)
+		if p := w.Panics(); len(p) > 0 {
+			viol = "server code panicked: " + p[0]
+			return
+		}
+		for _, obs := range []int{R, O} {
+			dels := map[uint32]int{}
+			leaves := 0
+			for _, rx := range w.Inbox(obs) {
+				switch m := rx.M.(type) {
+				case *hagallpb.EntityDeleteBroadcast:
+					dels[m.EntityId]++
+				case *hagallpb.ParticipantLeaveBroadcast:
+					if m.ParticipantId == lpid {
+						leaves++
+					}
+				}
+			}
+			if obs == R {
+				queued = len(dels) + leaves
+			}
+			for id := range removed {
+				if dels[id] != 1 {
+					viol = fmt.Sprintf("remaining member c%d was told %d times that entity %d of the leaver was removed", obs, dels[id], id)
+					return
+				}
+			}
+			for id := range kept {
+				if dels[id] != 0 {
+					viol = fmt.Sprintf("remaining member c%d was told that the persistent entity %d was removed", obs, id)
+					return
+				}
+			}
+			if leaves != 1 {
+				viol = fmt.Sprintf("remaining member c%d was told %d times about the departure of participant %d", obs, leaves, lpid)
+				return
+			}
+		}
+		w.Close(R)
+		w.Close(O)
+		if l := w.Leaks(); len(l) > 0 && viol == "" {
+			viol = fmt.Sprintf("after every client has gone: %v", l)
+		}
+	})
+	return
+}
+
+func TestC06Backpressure(t *testing.T) {
+	col := NewCollector("C06", "Wbp", "wire driver: a member owning 1-800 non-persistent and 0-3 persistent entities leaves (close or transport abort) while another member has stopped reading, so that more than 512 delete relays queue up for it; it then catches up; every remaining member must have been told exactly once about each removed entity, once about the departure, and about no persistent entity; nothing may be left behind; non-trivial = distinct case with more than 512 relays for the slow reader")
+	t.Cleanup(col.Write)
+	if rp := os.Getenv("VERIF_REPLAY"); rp != "" {
+		var c leaveBpCase
+		if err := readJSON(rp, &c); err != nil || c.Entities == 0 {
+			t.Skipf("replay file not usable: %v", err)
+		}
+		if v, _ := runLeaveBackpressure(t, c); v != "" {
+			t.Fatalf("replay violates C06: %s", v)
+		}
+		return
+	}
+	rapid.Check(t, func(rt *rapid.T) {
+		c := leaveBpCase{Entities: pick(rt, "entities", []int{1, 100, 511, 512, 513, 600, 800}), Persistent: uni(rt, "persistent", 4), Abort: uni(rt, "abort", 2) == 0}
+		v, queued := runLeaveBackpressure(t, c)
+		col.Case(fmt.Sprintf("%+v", c), v == "" && queued > 512, map[string]int{"more_than_512_relays": b2i(queued > 512)}, func() any { return c })
+		if v != "" {
+			col.Violations++
+			saveCase("C06", c)
+			rt.Fatalf("C06 violated: %s (case %+v)", v, c)
 		}
 	})
 }
